@@ -714,7 +714,7 @@ func (s *scanner) stateMultiLineAnnotation(c byte) (state, error) {
 }
 
 func (s *scanner) stateMultiLineAnnotationText(c byte) (state, error) {
-	if c == '*' && s.data.Byte(s.index) == '/' {
+	if c == '*' && s.index < s.dataSize && s.data.Byte(s.index) == '/' {
 		s.found(lexeme.MultiLineAnnotationTextEnd)
 		s.step = s.stateMultiLineAnnotationEnd
 	}
